@@ -9,6 +9,8 @@ import (
 	"os"
 	"time"
 
+	"go.uber.org/zap"
+
 	"go.etcd.io/etcd/client/pkg/v3/fileutil"
 	"go.etcd.io/etcd/raft/v3/raftpb"
 	"go.etcd.io/etcd/server/v3/storage/wal/walpb"
@@ -481,6 +483,9 @@ func VF_C16_chain() {
 	md, st, ents, err := r.ReadAll()
 	vfAssert(err == nil, "chain-readall")
 	vfAssert(vfBytesEq(md, meta), "chain-metadata")
+	// ReadAll leaves the WAL ready for appending: the metadata it will write at the head of the next
+	// segment (cut) is the log's metadata
+	vfAssert(vfBytesEq(r.metadata, meta), "readall-forgot-the-metadata-for-the-next-segment")
 	vfAssert(len(ents) == 2, "chain-entries")
 	if len(ents) == 2 {
 		vfAssert(vfAnd(c16EntryEq(ents[0], b1.ents[0]), c16EntryEq(ents[1], b2.ents[0])), "chain-entry-modified")
@@ -598,3 +603,125 @@ func VF_C16_corrupt_sealed() {
 	}
 	vfAssert(vfOr(c16StateEq(st, b2.st), vfOr(c16StateEq(st, b1.st), c16StateEq(st, raftpb.HardState{}))), "sealed-corrupt-hardstate-modified")
 }
+
+// ---------------------------------------------------------------------------
+// VF_C16_repair: Repair on the crash images of VF_C16_crash (last segment with a possibly torn tail): it
+// reports success, truncates exactly at the end of the last whole record, and the repaired segment then
+// reads to a clean end of file with every completed Save intact. Also for a segment that continues an
+// earlier one (its first record carries the previous segment's CRC).
+var c16RepairImg []byte
+var c16Truncated int64
+
+func c16OpenLast(lg *zap.Logger, dir string) (*fileutil.LockedFile, error) {
+	return &fileutil.LockedFile{File: &os.File{}}, nil
+}
+func c16NewFileReader(f *os.File) fileutil.FileReader { return &c16Reader{data: c16RepairImg} }
+func c16FileName(f *os.File) string                   { return "0000000000000000-0000000000000000.wal" }
+func c16Create(name string) (*os.File, error)         { return &os.File{}, nil }
+func c16FileClose(f *os.File) error                   { return nil }
+func c16Copy(dst io.Writer, src io.Reader) (int64, error) { return 0, nil }
+func c16Truncate(f *os.File, size int64) error        { c16Truncated = size; return nil }
+func c16Fsync(f *os.File) error                       { return nil }
+
+func c16Repair(second bool, layouts int) {
+	c16Stubs()
+	var w *WAL
+	var f *c16File
+	var batches []c16Batch
+	idx := uint64(1)
+	if second {
+		// the segment under repair continues an earlier one
+		w1, _, meta := c16Writer(1, 8)
+		b0 := c16MkBatch("seg1", 1, 1, 1)
+		vfAssert(w1.Save(b0.st, b0.ents) == nil, "save-error")
+		f = c16NewFile(3)
+		c16Cur = f
+		lf := &fileutil.LockedFile{}
+		if !vfIsSymbolic() {
+			lf.File, _ = os.CreateTemp("", "vfwal")
+		}
+		prev := w1.encoder.crc.Sum32()
+		w = &WAL{encoder: newEncoder(f, prev, 0), locks: []*fileutil.LockedFile{lf}}
+		vfAssert(w.saveCrc(prev) == nil, "seg2-crc")
+		vfAssert(w.encoder.encode(&walpb.Record{Type: metadataType, Data: meta}) == nil, "seg2-meta")
+		vfAssert(w.saveState(&b0.st) == nil, "seg2-state")
+		vfAssert(w.sync() == nil, "seg2-sync")
+		idx = 2
+	} else {
+		_, pf, _ := c16Writer(3, 128)
+		j := 1 + vfChoice("layout", layouts)
+		metaLen := 128 + (c16Sector - 8*j - pf.wpos)
+		vfAssume(metaLen >= 128)
+		w, f, _ = c16Writer(3, metaLen)
+	}
+	b := c16MkBatch("done", idx, 1, 1)
+	vfAssert(w.Save(b.st, b.ents) == nil, "save-error")
+	batches = append(batches, b)
+	idx++
+	synced := f.wpos
+	tb := c16MkBatch("torn", idx, 1, 2)
+	f.armed = true
+	vfAssert(w.Save(tb.st, tb.ents) == nil, "save-error")
+	batches = append(batches, tb)
+	img := c16CrashImage(f)
+
+	if !vfIsSymbolic() {
+		c16RepairNative(img, second)
+		return
+	}
+	vfStubFunc("go.etcd.io/etcd/server/v3/storage/wal.openLast", c16OpenLast)
+	vfStubFunc("go.etcd.io/etcd/client/pkg/v3/fileutil.NewFileReader", c16NewFileReader)
+	vfStubFunc("(*os.File).Name", c16FileName)
+	vfStubFunc("os.Create", c16Create)
+	vfStubFunc("(*os.File).Close", c16FileClose)
+	vfStubFunc("io.Copy", c16Copy)
+	vfStubFunc("(*os.File).Truncate", c16Truncate)
+	vfStubFunc("go.etcd.io/etcd/client/pkg/v3/fileutil.Fsync", c16Fsync)
+	c16RepairImg, c16Truncated = img, -1
+	vfAssert(Repair(nil, "/vfwal"), "torn-tail-not-repairable")
+	size := len(img)
+	if c16Truncated >= 0 {
+		vfAssert(c16Truncated >= int64(synced), "repair-cut-into-completed-saves")
+		vfAssert(c16Truncated%8 == 0 && c16Truncated <= int64(f.wpos), "repair-truncation-offset")
+		size = int(c16Truncated)
+	}
+	// the repaired segment reads to a clean end: every record decodes, then io.EOF
+	d := newDecoder(&c16Reader{data: img[:size]})
+	var rec walpb.Record
+	n := 0
+	var err error
+	for err = d.decode(&rec); err == nil; err = d.decode(&rec) {
+		if rec.Type == crcType {
+			d.updateCRC(rec.Crc)
+		}
+		n++
+	}
+	vfAssert(err == io.EOF, "repaired-segment-still-broken")
+	vfAssert(d.lastOffset() >= int64(synced), "repaired-segment-lost-completed-records")
+}
+
+// native replay: the same image as a real segment file, the real Repair, then the real Open / ReadAll
+func c16RepairNative(img []byte, second bool) {
+	dir, _ := os.MkdirTemp("", "vfwalrepair")
+	name := "0000000000000000-0000000000000000.wal"
+	if second {
+		name = "0000000000000001-0000000000000002.wal"
+	}
+	os.WriteFile(dir+"/"+name, img, 0o600)
+	vfAssert(Repair(zap.NewNop(), dir), "torn-tail-not-repairable")
+	fi, _ := os.Stat(dir + "/" + name)
+	d := newDecoder(&c16Reader{data: func() []byte { b, _ := os.ReadFile(dir + "/" + name); return b }()})
+	_ = fi
+	var rec walpb.Record
+	var err error
+	for err = d.decode(&rec); err == nil; err = d.decode(&rec) {
+		if rec.Type == crcType {
+			d.updateCRC(rec.Crc)
+		}
+	}
+	vfAssert(err == io.EOF, "repaired-segment-still-broken")
+}
+
+func VF_C16_repair_quick()         { c16Repair(false, 12) }
+func VF_C16_repair_thorough()      { c16Repair(false, 30) }
+func VF_C16_repair_second_segment() { c16Repair(true, 0) }
